@@ -65,6 +65,10 @@ pub enum Kind {
     /// the redirected descriptors (except 1, its own pipe)
     BuiltinAssign,
     FuncAssign,
+    /// a command that is not found, with an assignment prefix whose value is a
+    /// command substitution: `aK=$(io t:pK) nosuch_cmd REDIRS` - here too the
+    /// redirections are performed first
+    NotFoundAssign,
     /// `( trap 'io ...' EXIT; exec nosuch_cmd REDIRS )`: the redirections of an
     /// `exec` persist also when it has a command operand, which cannot be
     /// executed here: the subshell leaves with them in effect, as its EXIT
@@ -205,6 +209,8 @@ pub fn generate(rng: &mut Rng, tier: Tier) -> Case {
                 Kind::FuncAssign,
                 Kind::ExecCmd,
                 Kind::ExecCmd,
+                Kind::NotFoundAssign,
+                Kind::NotFoundAssign,
             ]),
             3..=4 => Kind::Dot,
             5..=6 => Kind::Func,
@@ -257,7 +263,7 @@ pub fn generate(rng: &mut Rng, tier: Tier) -> Case {
             }
         }
         let mut ops = Vec::new();
-        if !matches!(kind, Kind::NotFound | Kind::Empty | Kind::Exec | Kind::Colon) {
+        if !matches!(kind, Kind::NotFound | Kind::NotFoundAssign | Kind::Empty | Kind::Exec | Kind::Colon) {
             for _ in 0..rng.below(4) {
                 if rng.below(3) == 0 {
                     ops.push(IoOp::R(*rng.pick(&[0i32, 0, 3, 4, 5])));
@@ -364,6 +370,7 @@ pub fn render(c: &Case) -> String {
                         format!("io {o} {rs} | relay 99")
                     }
                     Kind::NotFound => format!("nosuch_cmd {rs}"),
+                    Kind::NotFoundAssign => format!("a{k}=$(io t:p{k}) nosuch_cmd {rs}"),
                     Kind::Empty => rs.to_string(),
                     Kind::Exec => format!("exec {rs}"),
                     // (every other one with a pathname expansion: reading a
@@ -423,6 +430,9 @@ pub struct CmdExpect {
     pub redirs_ok: bool,
     /// table seen by the command (fd -> desc id) when it runs
     pub during: Option<BTreeMap<i32, usize>>,
+    /// (a command that does not run any probe itself) the table in effect
+    /// while the assignment prefix is expanded
+    pub prefix: Option<BTreeMap<i32, usize>>,
     /// (desc id -> path) for descs that are files
     pub during_paths: BTreeMap<usize, String>,
     pub results: Vec<String>,
@@ -699,6 +709,10 @@ impl Model {
         }
         match kind {
             Kind::NotFound => {
+                e.status_zero = false;
+            }
+            Kind::NotFoundAssign => {
+                e.prefix = Some(fds.clone());
                 e.status_zero = false;
             }
             Kind::Empty | Kind::Colon => e.status_zero = true,
@@ -1003,11 +1017,12 @@ fn check_model(c: &Case, exp: &Expect, obs: &Observed) -> Option<Viol> {
             }
             (None, None) => {}
         }
-        if matches!(kinds_of(c).get(i), Some(Kind::BuiltinAssign | Kind::FuncAssign)) {
+        if matches!(kinds_of(c).get(i), Some(Kind::BuiltinAssign | Kind::FuncAssign | Kind::NotFoundAssign)) {
             // the command substitution of the assignment prefix runs after the
             // redirections have been performed (and not at all if one fails)
             let p = snaps.iter().find(|s| s.label == format!("p{k}"));
-            match (&e.during, p) {
+            let table = if e.prefix.is_some() { &e.prefix } else { &e.during };
+            match (table, p) {
                 (Some(model), Some(s)) => {
                     let open: BTreeSet<i32> = s.fds.keys().filter(|f| **f < 10 && **f != 1).copied().collect();
                     let want: BTreeSet<i32> = model.keys().filter(|f| **f < 10 && **f != 1).copied().collect();
